@@ -101,6 +101,13 @@ def cases(tier: str, seed: int) -> List[Dict[str, Any]]:
                 # compile as the last transform of a chain that contains a (deterministic) format simulation
                 if fam == "mlp" or (fam == "residual" and not us):
                     out.append({"family": fam, "unit_scale": us, "fmt": "e5m2rn", "final": "compile", "seed": seed})
+    # two LIVE chains on the same original with different formats, used interleaved (forward A, forward B, backward A)
+    for fam in ("mlp", "residual", "attention", "unit_layers"):
+        for fa, fb in (("e5m2rn", "lossless"), ("lossless", "e5m2rn"), ("fp8", "e5m2rn"), ("sr_pinned", "lossless")):
+            for us in (False, True):
+                if us and fam == "unit_layers":
+                    continue
+                out.append({"family": fam, "unit_scale": us, "fmt": fa, "final": None, "seed": seed, "interleave_with": fb})
     # scheduling only: chains ending in compile (Inductor) are the expensive ones - run them first
     out.sort(key=lambda c: (0 if c.get("final") == "compile" else 1, -(int(bool(c.get("fmt"))) + int(bool(c.get("unit_scale"))))))
     return out
@@ -184,6 +191,52 @@ def run_case(case: Dict[str, Any]) -> Dict[str, Any]:
 
     results: List[Tuple[str, Any]] = []
     orders = list(itertools.permutations(tset)) or [()]
+    if case.get("interleave_with"):
+        ident += f"|interleaved_with_fmt:{case['interleave_with']}"
+        try:
+            m, src = build(prog, case["seed"])
+            inp = inputs(prog, case["seed"])
+            chain_a = tset
+            chain_b = (["unit_scale"] if us else []) + [f"fmt:{case['interleave_with']}"]
+
+            def mk(chain: List[str]) -> Any:
+                mod = m
+                for t in chain:
+                    mod = apply(mod, t)
+                return mod
+
+            def fwd_(mod: Any) -> Any:
+                for p in mod.parameters():
+                    p.grad = None
+                a0 = inp[0].clone().requires_grad_(True)
+                with mock.patch.object(torch, "randint", pinned_randint):
+                    y = mod(a0, *[a.clone() for a in inp[1:]])
+                loss = y if y.dim() == 0 else (y * torch.linspace(-1, 1, y.numel()).reshape(y.shape)).sum()
+                return mod, a0, y, loss
+
+            def bwd_(state: Any) -> Any:
+                mod, a0, y, loss = state
+                with mock.patch.object(torch, "randint", pinned_randint):
+                    loss.backward()
+                return y.detach().clone(), dict({str(j): (p.grad.clone() if p.grad is not None else None) for j, p in enumerate(mod.parameters())},
+                                                **{"<input>": a0.grad.clone()})
+
+            ta, tb = mk(chain_a), mk(chain_b)
+            torch._dynamo.reset()
+            alone_a = bwd_(fwd_(ta))
+            alone_b = bwd_(fwd_(tb))
+            sa = fwd_(ta)          # forward A
+            sb = fwd_(tb)          # forward B (another live chain with other formats)
+            inter_a = bwd_(sa)     # backward A
+            inter_b = bwd_(sb)     # backward B
+            for nm, x_, y_ in (("A", inter_a, alone_a), ("B", inter_b, alone_b)):
+                d = same(x_, y_)
+                if d:
+                    viol.append({"key": ident + f"|interleaved_use_changes_chain_{nm}", "msg": f"{d} differs between the chain used alone and interleaved with the other chain"})
+            steps += 8
+        except Exception as e:  # noqa
+            return {"violations": viol + [exception_violation(e, ident)], "steps": steps, "outcome": "raises"}
+        return {"violations": viol[:3], "steps": steps, "n_states": 2, "nontrivial": True, "outcome": f"interleaved:{'ok' if not viol else 'bad'}"}
     if case.get("train_between"):
         ident += "|trained_between"
         try:
